@@ -41,6 +41,10 @@ def gen_cases(rng, spec, n):
             c = kgen.gen_intr(rng, i)
         elif base == 'chain':
             c = kgen.gen_chain(rng, i)
+        elif base == 'decided':
+            c = kgen.gen_decided(rng, i)
+        elif base == 'ack':
+            c = kgen.gen_ack(rng, i)
         elif base == 'untilfail':
             c = kgen.gen_until_fail(rng, i)        # already a split plan
         elif base == 'store':
